@@ -525,6 +525,20 @@ impl MetadataClient for LocalMetadataClient {
         Ok(original_count - leases.leases.len())
     }
 
+    async fn active_split_new_shards(&self) -> Result<Vec<String>> {
+        use crate::sharding::SplitPhase;
+        let mut shards = Vec::new();
+        for entry in self.split_states.iter() {
+            if matches!(
+                entry.value().phase,
+                SplitPhase::DualWrite | SplitPhase::Backfill
+            ) {
+                shards.extend(entry.value().new_shards.iter().cloned());
+            }
+        }
+        Ok(shards)
+    }
+
     async fn has_active_split(&self) -> Result<bool> {
         use crate::sharding::SplitPhase;
         for entry in self.split_states.iter() {
